@@ -52,8 +52,8 @@ func DecodeAnyBase64(b []byte) ([]byte, error) {
 	decoded := make([]byte, d.DecodedLen(len(b)))
 	n, err := d.Decode(decoded, b)
 	if err != nil {
-		// unreachable unless there is a bug in WhichBase
-		panic(err)
+		// WhichBase64 only classifies characters; misplaced padding is caught here
+		return nil, ErrInvalidBase64
 	}
 
 	return decoded[:n], nil
